@@ -27,6 +27,8 @@ TOL_CACHE = 1e-13
 NESTED = ["S21", "S2m1", "Sm21", "Sm2m1", "S31", "Sm31", "Sm22", "S211", "Sm211"]
 SINGLE_P = ["S1", "S2", "S3", "S4", "S5"]
 SINGLE_M = ["Sm1", "Sm2", "Sm3", "Sm4", "Sm5"]
+# cache keys whose value does not involve the parity factor
+PARITY_FREE = ["S1", "S2", "S3", "S4", "S5", "S1h", "S2h", "S3h", "S1mh", "S2mh", "S3mh", "S1ph", "S2ph", "S3ph", "S1p2", "g3", "g3p2", "S21", "S31", "S211"]
 
 
 def _mp():
@@ -110,7 +112,8 @@ def job_integer(args):
     tab = H.table(Nmax)
     out = []
     for N in Ns:
-        for flag in (None, N % 2 == 0):
+        # the parity flag as a Python bool and as the NumPy bool that `Ns % 2 == 0` on an integer array gives
+        for flag in (None, N % 2 == 0, np.bool_(N % 2 == 0)):
             n = complex(N)
             ref = {k: float(v[N]) for k, v in tab.items()}
             # inputs for direct calls: exact values at N, code-independent values at N/2, (N-1)/2
@@ -129,9 +132,9 @@ def job_integer(args):
                             v = _direct(name, n, flag, inp)
                         else:
                             v = c.get(getattr(c, name), ca, n, flag)
-                        out.append((name, N, flag, via, complex(v), ref[name], None))
+                        out.append((name, N, _fl(flag), via, complex(v), ref[name], None))
                     except Exception as e:  # noqa
-                        out.append((name, N, flag, via, None, ref[name], f"{type(e).__name__}: {e}"))
+                        out.append((name, N, _fl(flag), via, None, ref[name], f"{type(e).__name__}: {e}"))
     return out
 
 
@@ -297,10 +300,20 @@ def job_mellin_log(args):
 
 def job_cache(args):
     """Fresh cache + random lookup order == direct (single-key fresh cache) evaluation."""
-    N, flag, perms = args
+    N, flag, perms = args[:3]
+    mixed = len(args) > 3 and args[3]
     from ekore.harmonics import cache as c
 
     nkeys = c.CACHE_SIZE
+    # ekore's own usage: sums that do not depend on the parity are fetched without a flag
+    # (`c.get(c.S21, cache, n)`), the alternating ones with it
+    indep = {getattr(c, k) for k in PARITY_FREE}
+
+    def fetch(k, ca):
+        if mixed and k in indep:
+            return c.get(int(k), ca, N)
+        return c.get(int(k), ca, N, flag)
+
     direct = np.empty(nkeys, complex)
     for k in range(nkeys):
         direct[k] = c.get(k, c.reset(), N, flag)
@@ -309,9 +322,9 @@ def job_cache(args):
         ca = c.reset()
         got = np.empty(nkeys, complex)
         for k in perm:
-            got[k] = c.get(int(k), ca, N, flag)
+            got[k] = fetch(int(k), ca)
         # second lookup must return the stored value
-        again = np.array([c.get(int(k), ca, N, flag) for k in range(nkeys)])
+        again = np.array([fetch(k, ca) for k in range(nkeys)])
         err = np.abs(got - direct) / np.maximum(1.0, np.abs(direct))
         err2 = np.abs(again - got) / np.maximum(1.0, np.abs(direct))
         w = int(np.argmax(err))
@@ -385,7 +398,16 @@ def _rand_N(rng, n):
 
 
 def _flagname(f):
+    if isinstance(f, str):
+        return f
     return {True: "singlet", False: "nonsinglet", None: "generic"}[f]
+
+
+def _fl(f):
+    """JSON-able flag that keeps the NumPy-bool variant apart."""
+    if isinstance(f, np.bool_):
+        return "np.bool_-singlet" if f else "np.bool_-nonsinglet"
+    return f
 
 
 def _warmup():
@@ -499,23 +521,28 @@ def run(ck):
         perms = [rng.permutation(c.CACHE_SIZE) for _ in range(nperm)]
         perms.append(np.arange(c.CACHE_SIZE)[::-1])
         items.append((N, flag, perms))
+        if flag is not None:
+            items.append((N, flag, [rng.permutation(c.CACHE_SIZE) for _ in range(nperm)], True))
     for item, st, val in jobs.pmap(job_cache, items, timeout=3000):
         if st != "ok":
             ck.inconclusive(f"cache job {st}: {str(val)[:200]}")
             continue
         (N, flag), recs, direct = val
+        mixed = len(item) > 3 and item[3]
         for err, w, err2, perm, got, dire in recs:
-            ck.case(("cache", N, _flagname(flag), tuple(perm)), sample=dict(N=N, flag=_flagname(flag), order=perm[:6], max_rel_dev=err))
+            ck.case(("cache", N, _flagname(flag), mixed, tuple(perm)), sample=dict(N=N, flag=_flagname(flag), parity_free_keys_without_flag=bool(mixed), order=perm[:6], max_rel_dev=err))
             ck.hit("cache_order")
+            if mixed:
+                ck.hit("cache_order_mixed_flags")
             if not (err <= TOL_CACHE) or not (err2 <= TOL_CACHE):
                 ck.violation(
-                    f"C24/cache/order/key{w}",
+                    f"C24/cache/order/key{w}" + ("/parity-free-keys-without-flag" if mixed else ""),
                     f"cache value of key {w} depends on lookup order at N={N} flag={_flagname(flag)}: {got} vs direct {dire}",
-                    dict(N=N, flag=flag, order=perm, key=w, got=got, direct=dire, err=err, err_second_lookup=err2, seed=ck.seed),
+                    dict(N=N, flag=flag, mixed=bool(mixed), order=perm, key=w, got=got, direct=dire, err=err, err_second_lookup=err2, seed=ck.seed),
                 )
             else:
                 ck.ok()
-    items = [(N, f) for (N, f, _) in items[: ck.n(12, 60)]]
+    items = [(it[0], it[1]) for it in items if len(it) == 3][: ck.n(12, 60)]
     for item, st, val in jobs.pmap(job_cache_oracle, items, timeout=3000):
         if st != "ok":
             ck.inconclusive(f"cache oracle job {st}: {str(val)[:200]}")
